@@ -9,6 +9,9 @@ for d in sorted(glob.glob('/verif/seeded/*/'), key=lambda s:(s.split('/')[-2][:3
     def one(s,n):
         s=' '.join(str(s).split()).replace('|','/')
         return s if len(s)<=n else s[:n-1]+'…'
+    def fv(x):
+        if isinstance(x,dict): return ('**missed**' if x.get('verdict')=='MISSED' else x.get('verdict','?'))
+        return x
     cr=m.get('check_result',{})
     keys=cr.get('violation_keys',[])
     other=m.get('check_result_other_property')
@@ -16,4 +19,4 @@ for d in sorted(glob.glob('/verif/seeded/*/'), key=lambda s:(s.split('/')[-2][:3
     if other and now!='caught': now+=f" ({other['property']}: {other['verdict']})"
     ks=', '.join('`'+k+'`' for k in keys[:3])+(' …' if len(keys)>3 else '')
     if other and not keys: ks=f"{other['property']}: "+', '.join('`'+k+'`' for k in other['violation_keys'][:2])
-    print(f"| {name} | {one(m.get('summary',''),170)} | {one(m.get('needs_to_manifest',''),120)} | {one(m.get('first_verdict_of_registered_check',''),90)} | {now} | {ks} |")
+    print(f"| {name} | {one(m.get('summary',''),170)} | {one(m.get('needs_to_manifest',''),120)} | {one(fv(m.get('first_verdict_of_registered_check','')),90)} | {now} | {ks} |")
